@@ -100,6 +100,20 @@ impl Clone for Variants<'_> {
     }
 }
 
+#[cfg(gluon_verif)]
+impl Variants<'_> {
+    /// Canonical encoding of the object graph below this value, equal for two values iff they are
+    /// isomorphic including sharing and cycles (verification hook)
+    pub fn verif_encode_graph(&self) -> String {
+        crate::value::verif_encode_graph(&self.0)
+    }
+
+    /// Id of the heap that owns the object this value points to (`None` for unboxed values)
+    pub fn verif_owner(&self) -> Option<u32> {
+        self.0.verif_owner()
+    }
+}
+
 impl<'a> Variants<'a> {
     /// Creates a new `Variants` value which assumes that `value` is rooted for the lifetime of the
     /// value
